@@ -55,6 +55,33 @@ def short_path(p):
 MEASURES = ("len", "count", "as_usize", "capacity", "width", "chars", "as_secs", "as_millis", "as_nanos", "subsec_nanos")
 
 
+INT_TYS = ("usize", "u64", "u32", "u16", "u8", "isize", "i64", "i32", "i16", "i8")
+CRATE = [None]
+
+
+def _param_through_callers(body, i, depth):
+    """An integer parameter of a crate-private, non-trait, non-closure function stands for what its
+    (in-crate, direct) callers pass: its provenance is the union of theirs. Keeps edge signatures stable
+    when a block of a function is extracted into a private helper. None = keep the atom `param`."""
+    crate = CRATE[0]
+    if crate is None or depth >= 2 or body.kind == "Closure" or body.api or (body.impl or {}).get("trait"):
+        return None
+    if not isinstance(i, int) or i < 1 or i > body.arg_count or body.locals[i]["ty"] not in INT_TYS:
+        return None
+    sites = [c for c in crate.callers().get(body.name, ()) if c.path == body.name or c.generic == body.name]
+    if not sites or len(sites) > 4:
+        return None
+    out = set()
+    for c in sites:
+        if len(c.args) < i:
+            return None
+        pv = prov(c.body, c.args[i - 1], c.bb, depth + 1)
+        if pv == "?":
+            return None
+        out |= set(pv.split("+"))
+    return out
+
+
 def prov(body, op, at, depth=0):
     """Provenance descriptor of an operand: sorted '+'-joined set of root descriptors."""
     if not isinstance(op, dict):
@@ -73,7 +100,11 @@ def prov(body, op, at, depth=0):
             v = a[1]
             out.add("const:%d" % v if isinstance(v, int) and not isinstance(v, bool) and -4 <= v <= 64 else "const")
         elif a[0] == "param":
-            out.add("param")
+            sub = _param_through_callers(body, a[1], depth)
+            if sub is None:
+                out.add("param")
+            else:
+                out |= sub
         elif a[0] == "field":
             adt = a[1]
             if adt in ("closure",):
@@ -235,7 +266,7 @@ def discharge_by_pattern(crate, e):
                 if not sl.calls and not sl.params() and not real_fields and all(isinstance(c, int) and abs(c) <= 64 for c in cs):
                     return "induction counter built from small constants (would need 2^64 iterations to overflow)"
         if msg == "Overflow(Sub)" and len(ops) == 2:
-            why = index_below_len(b, ops, e.bb)
+            why = index_below_len(b, ops, e.bb) or guarded_sub(b, ops, e.bb)
             if why:
                 return why
         if msg.startswith("Overflow(Div") or msg.startswith("Overflow(Rem"):
@@ -260,6 +291,67 @@ def _origin_locals(b, call, k=0):
     if l is None:
         return set()
     return {tl for tl, tp in b.ref_origins().get(l, ())} | {l}
+
+
+def _src_place(b, op):
+    """Source place of an operand through single-definition copy temporaries: (local, path-json) or None."""
+    import json as _j
+    for _ in range(4):
+        if not isinstance(op, dict) or op.get("k") == "const":
+            return None
+        pl = op["place"]
+        if pl["p"]:
+            return (pl["l"], _j.dumps(pl["p"], sort_keys=True))
+        l = pl["l"]
+        ds = b.defs().get(l, ())
+        if len(ds) == 1 and ds[0]["kind"] == "param":
+            return (l, "[]")
+        if len(ds) != 1 or ds[0]["kind"] != "assign" or ds[0]["lhs"]["p"] or ds[0]["rv"]["k"] != "use":
+            return (l, "[]") if l > b.arg_count else None
+        op = ds[0]["rv"]["op"]
+    return None
+
+
+def guarded_sub(b, ops, at):
+    """`a - b` executed only on a switch edge that implies a >= b, the compared and the subtracted values being
+    reads of the same two places with no store to either in between."""
+    pa, pb = _src_place(b, ops[0]), _src_place(b, ops[1])
+    if pa is None or pb is None or pa == pb:
+        return None
+    for sb, t in b.switches():
+        l = operand_local(t["op"])
+        ds = b.defs().get(l, ()) if l is not None else ()
+        if len(ds) != 1 or ds[0]["kind"] != "assign" or ds[0]["rv"]["k"] != "bin" or ds[0]["bb"] != sb:
+            continue
+        rv = ds[0]["rv"]
+        if rv["op"] not in ("Le", "Lt", "Gt", "Ge"):
+            continue
+        x, y = _src_place(b, rv["a"]), _src_place(b, rv["b"])
+        if (x, y) == (pa, pb):
+            want_true = rv["op"] in ("Gt", "Ge")      # a > b / a >= b true;  a <= b / a < b false
+        elif (x, y) == (pb, pa):
+            want_true = rv["op"] in ("Le", "Lt")      # b <= a / b < a true;  b > a / b >= a false
+        else:
+            continue
+        zero = [tb for v, tb in t["targets"] if v == 0]
+        tgt = t["otherwise"] if want_true else (zero[0] if zero else None)
+        if want_true and not zero:
+            continue
+        if tgt is None or not b.edge_dominates((sb, tgt), at):
+            continue
+        # no store to either place between the test and the subtraction
+        between = {x for x in b.reach([tgt]) if at in b.reach([x]) or x == at} | {tgt}
+        dirty = False
+        for (pl, pp) in (pa, pb):
+            for d in b.defs().get(pl, ()):
+                if d.get("bb", -1) in between and d["kind"] != "param":
+                    # a definition of the same local: only harmful if it may touch the same path
+                    if pp == "[]" or d["kind"] != "assign" or not d["lhs"]["p"] or d.get("via_ref") is not None or \
+                            __import__("json").dumps(d["lhs"]["p"], sort_keys=True) == pp:
+                        dirty = True
+        if not dirty:
+            return "subtraction guarded by the dominating comparison %s (edge bb%d->bb%d) on the same two places" % (rv["op"], sb, tgt)
+    return None
 
 
 def index_below_len(b, ops, at):
@@ -350,6 +442,7 @@ def load_audit():
 
 def run_ledger(ctx, crate, prop, rule, entries, stop=(), extra_discharge=None, floor_edges=1):
     """Evaluate the ledger for one property. Returns (edges, scope set)."""
+    CRATE[0] = crate
     cfg = crate.config
     sc = scope(crate, entries, stop)
     if not sc:
